@@ -991,7 +991,13 @@ class Interp:
                 None if s.upper is None else self.eval(s.upper, env),
                 None if s.step is None else self.eval(s.step, env))
         if isinstance(s, ast.Tuple):
-            return tuple(self.eval_slice(x, env) for x in s.elts)
+            out = []
+            for x in s.elts:
+                if isinstance(x, ast.Starred):
+                    out.extend(self.iterate(self.eval(x.value, env)))
+                else:
+                    out.append(self.eval_slice(x, env))
+            return tuple(out)
         return self.eval(s, env)
 
     def e_Subscript(self, e, env):
